@@ -424,10 +424,19 @@ func GenBankParser(state *pars.State, result *pars.Result) error {
 
 	end := pars.Seq("//", pars.EOL)
 
+	// The placeholder is replaced once an ORIGIN block has been read.
+	placeholder := gb.Origin
+
 	for end(state, result) != nil {
 		if err := parser(state, result); err != nil {
 			if dig(err) != errGenBankExtra {
 				return err
+			}
+			if gb.Origin != placeholder {
+				// ORIGIN is the last field of a record: an unrecognized line
+				// here is the rest of a sequence that is longer than the
+				// length declared in the LOCUS line.
+				return pars.NewError("unexpected line after ORIGIN: sequence does not match the declared length", state.Position())
 			}
 			pars.Line(state, result)
 			if pars.End(state, result) == nil {
